@@ -29,6 +29,7 @@ T=[
  ('C05','untyped complex constant to an integer type','AssignableConv(untyped complex constant -> integer type) panicked inside constant.Compare (`var x int8 = 1i`)'),
  ('C01','send statement checks','Send emitted `c <- v` unchecked: sending on a non-channel or receive-only channel, or a value not assignable to the element type (3 458 atoms)'),
  ('C01','slicing an operand that cannot be sliced','Slice accepted every operand type without an explicit case (struct, map, func, chan, interface, named bool ...): `st[1:2]` was emitted (2 700 atoms)'),
+ ('C03','variable of a range over an integer','for k := range n gave k the underlying basic type when n has a named integer type (for k := range MyInt(3): builder int, Go MyInt) and int for an untyped rune constant (for k := range \'a\': Go rune); found when declared objects were added to the type oracle'),
  ('C01','index expressions check the index operand','Index/IndexRef emitted a[i] without checking i: string or float index into a slice, index not assignable to the map key type, negative or fractional constant index (3 000 atoms)'),
 ]
 lines=open('/verif/KNOWN_FINDINGS.txt').read().splitlines()
